@@ -157,6 +157,12 @@ func (a *archiveReconciler) intermediateRevisionCanBeArchived(
 	if err != nil {
 		return false, err
 	}
+	// Objects referenced via ObjectSlices belong to the revision just like inline objects.
+	slicedObjects, err := a.slicedObjects(ctx, currentLatestRevision)
+	if err != nil {
+		return false, err
+	}
+	latestRevisionObjects = append(latestRevisionObjects, slicedObjects...)
 	previousRevisionActivelyReconciledObjects := newObjectSetGetter(previousRevision).getActivelyReconciledObjects()
 	// Actively reconciled status is not yet updated
 	if previousRevisionActivelyReconciledObjects == nil {
@@ -187,6 +193,47 @@ func (a *archiveReconciler) intermediateRevisionCanBeArchived(
 		return isPaused, nil
 	}
 	return false, nil
+}
+
+// slicedObjects returns the objects an ObjectSet lists through ObjectSlices.
+func (a *archiveReconciler) slicedObjects(
+	ctx context.Context, objectSet adapters.ObjectSetAccessor,
+) ([]objectIdentifier, error) {
+	var newSlice func() adapters.ObjectSliceAccessor
+	switch objectSet.(type) {
+	case *adapters.ObjectSetAdapter:
+		newSlice = func() adapters.ObjectSliceAccessor { return &adapters.ObjectSlice{} }
+	case *adapters.ClusterObjectSetAdapter:
+		newSlice = func() adapters.ObjectSliceAccessor { return &adapters.ClusterObjectSlice{} }
+	default:
+		return nil, nil
+	}
+
+	var res []objectIdentifier
+	namespace := objectSet.ClientObject().GetNamespace()
+	for _, phase := range objectSet.GetPhases() {
+		for _, sliceName := range phase.Slices {
+			slice := newSlice()
+			if err := a.client.Get(ctx, client.ObjectKey{
+				Name: sliceName, Namespace: namespace,
+			}, slice.ClientObject()); err != nil {
+				return nil, fmt.Errorf("getting ObjectSlice %s: %w", sliceName, err)
+			}
+			for _, obj := range slice.GetObjects() {
+				objNamespace := obj.Object.GetNamespace()
+				if len(objNamespace) == 0 {
+					objNamespace = namespace
+				}
+				res = append(res, objectSetObjectIdentifier{
+					name:      obj.Object.GetName(),
+					namespace: objNamespace,
+					group:     obj.Object.GroupVersionKind().Group,
+					kind:      obj.Object.GroupVersionKind().Kind,
+				})
+			}
+		}
+	}
+	return res, nil
 }
 
 func (a *archiveReconciler) ensurePaused(ctx context.Context, objectset adapters.ObjectSetAccessor) (bool, error) {
